@@ -152,6 +152,18 @@ def check_ok_text(text, sheets, pyfile=None, expect_cells=None):
             return 'badclass', f'member {m} refers to an undefined name: {e}'
         except Exception as e:
             vals[m] = ('e', type(e).__name__)
+    if sheets:
+        # the class carries the WORKBOOK's sizes for every instance: one executor that appends a cell beside / below the stored ones
+        # changes its own instance only, a new instance of the same class object still reports the sizes of the workbook
+        try:
+            ex1 = repo.fresh_executor(klass)
+            ex1.set_cells([Cell(0, want_sizes[0]['last_column'] + 1, want_sizes[0]['last_row'] + 2, 1)])
+            again = klass().get_sheets_size()
+            again2 = repo.fresh_executor(klass).get_executed_class().get_sheets_size()
+        except Exception as e:
+            return 'foreign', 'append:' + type(e).__name__
+        if again != want_sizes or again2 != want_sizes:
+            return 'badclass', f'after one executor appended a cell, a new instance of the class object reports sizes {again} / {again2}, the workbook has {want_sizes}'
     if pyfile:
         try:
             ex = Executor().set_executed_class(class_file=pyfile)
